@@ -1020,6 +1020,7 @@ pub fn opsig(op: &Op) -> String {
                 Repl::Wrappers(_) => "Wrapper",
                 Repl::Raws(_) => "Raw",
                 Repl::DrainOf(..) => "Drain",
+                Repl::Growing(..) => "Growing",
                 Repl::LazyRefs(..) => "Lazy",
                 Repl::Lying(..) => "Lying",
                 Repl::Mismatch(..) => "Mismatch",
